@@ -103,22 +103,29 @@ def build(m):
         MOD + ':BlockCode.read', [('cls', cls_t('BlockCode')), ('lines', FW)],
         returns=TOpt(TList(STR)),
         requires=READER_REQ + ['INDENTED(lines.lines[lines._index + 1])'],
-        ensures=READER_ENS_SOME,
+        ensures=READER_ENS_SOME + [
+            # C03 tight/loose: an indented code block never ends with an empty line - the empty lines after
+            # its last code line are handed back, so that an enclosing list item sees them
+            ("lines.lines[lines._index] != '\\n'", ['C03', 'C02'])],
         modifies=['lines._index'],
         body_types={'line_buffer': TList(STR)},
         loops={
             0: Loop(invariant=[
                 'CURSOR_OK(lines)', 'lines._index == old(lines._index) + _k0',
                 'len(line_buffer) == _k0', '0 <= trailing_blanks',
-                'trailing_blanks <= (_k0 - 1 if _k0 >= 1 else 0)'],
+                'trailing_blanks <= (_k0 - 1 if _k0 >= 1 else 0)',
+                # trailing_blanks counts exactly the empty lines at the end of what has been consumed
+                "implies(_k0 >= 1 and lines._index - trailing_blanks > old(lines._index), "
+                "lines.lines[lines._index - trailing_blanks] != '\\n')"],
                 decreases='len(lines.lines) - 1 - lines._index'),
             1: Loop(invariant=[
                 'CURSOR_OK(lines)',
                 'lines._index == at_loop(1, lines._index) - _k1',
                 'len(line_buffer) == at_loop(1, len(line_buffer)) - _k1',
                 'lines._index >= old(lines._index) + 1 + (_n1 - _k1)',
-                'len(line_buffer) >= _n1 - _k1']),
-        }, prop=P), classmethod_=True)
+                'len(line_buffer) >= _n1 - _k1',
+                "lines.lines[at_loop(1, lines._index) - _n1] != '\\n'"]),
+        }, prop=P + ['C03', 'C02']), classmethod_=True)
 
     # ---- CodeFence ---------------------------------------------------------------------------
     method('CodeFence', 'read', Contract(
@@ -138,13 +145,22 @@ def build(m):
         MOD + ':HtmlBlock.read', [('cls', cls_t('HtmlBlock')), ('lines', FW)],
         returns=TOpt(TList(STR)),
         requires=READER_REQ + ["lines.lines[lines._index + 1].strip() != ''"],
-        ensures=READER_ENS_SOME,
+        ensures=READER_ENS_SOME + [
+            # CommonMark 4.6 (start conditions 1-5): the block runs up to and including the FIRST line that
+            # contains the end condition, compared case-insensitively (</PRE> ends a <pre> block) ...
+            ("implies(not is_none(HtmlBlock._end_cond), forall(lambda j: implies(old(lines._index) + 1 <= j and j < lines._index, "
+             "not (some(HtmlBlock._end_cond) in lines.lines[j].casefold())), 0, len(lines.lines)))", ['C03', 'C02']),
+            # ... or to the end of the input
+            ("implies(not is_none(HtmlBlock._end_cond), some(HtmlBlock._end_cond) in lines.lines[lines._index].casefold() "
+             "or lines._index == len(lines.lines) - 1)", ['C03', 'C02'])],
         modifies=['lines._index'],
         body_types={'line_buffer': TList(STR)},
         loops={0: Loop(invariant=['CURSOR_OK(lines)', 'lines._index == old(lines._index) + _k0',
-                                  'len(line_buffer) == _k0'],
+                                  'len(line_buffer) == _k0',
+                                  "implies(not is_none(HtmlBlock._end_cond), forall(lambda j: implies(old(lines._index) + 1 <= j and j <= lines._index, "
+                                  "not (some(HtmlBlock._end_cond) in lines.lines[j].casefold())), 0, len(lines.lines)))"],
                        decreases='len(lines.lines) - 1 - lines._index')},
-        prop=P + ['C11']), classmethod_=True)
+        prop=P + ['C11', 'C03', 'C02']), classmethod_=True)
 
     # ---- Table -----------------------------------------------------------------------------
     m.ufunc('delimiter_row_fullmatch', [STR], BOOL)
@@ -489,7 +505,11 @@ def build6(m):
         MOD + ':Footnote.read', [('cls', cls_t('Footnote')), ('lines', FW)], returns=TOpt(TList(REF5)),
         requires=READER_REQ + ["lines.lines[lines._index + 1].strip() != ''", 'not is_none(token._root_node)',
                                'len(lines.lines[lines._index + 1]) >= 2'],
-        ensures=READER_ENS,
+        ensures=READER_ENS + [
+            # C04 / C05 / C07: a run of definitions never reaches across a blank line - blank as every other reader
+            # tests it (white space only), so that the same text finds the same definitions at any nesting depth
+            ("forall(lambda j: implies(old(lines._index) + 1 <= j and j <= lines._index, lines.lines[j].strip() != ''), 0, len(lines.lines))",
+             ['C04', 'C05', 'C07'])],
         modifies=['lines._index', 'G:FOOTNOTES'],
         body_types={'next_line': TOpt(STR), 'line_buffer': TList(STR), 'matches': TList(REF5)},
         ghost_after={"string = ''.join(line_buffer)": [
@@ -498,15 +518,17 @@ def build6(m):
             0: Loop(invariant=['CURSOR_OK(lines)', 'len(line_buffer) == lines._index - old(lines._index)',
                                'implies(len(line_buffer) >= 1, line_buffer[0] == lines.lines[old(lines._index) + 1])',
                                'is_none(next_line) == (lines._index + 1 >= len(lines.lines))',
-                               'implies(not is_none(next_line), some(next_line) == lines.lines[lines._index + 1])'],
+                               'implies(not is_none(next_line), some(next_line) == lines.lines[lines._index + 1])',
+                               "forall(lambda j: implies(old(lines._index) + 1 <= j and j <= lines._index, lines.lines[j].strip() != ''), 0, len(lines.lines))"],
                     decreases='len(lines.lines) - 1 - lines._index'),
             1: Loop(invariant=['0 <= offset', 'offset <= len(string)',
                                '(offset == 0) == (len(matches) == 0)',
                                "implies(offset > 0, string[offset - 1] == '\\n')",
-                               'lines._index == at_loop(1, lines._index)'],
+                               'lines._index == at_loop(1, lines._index)',
+                               "forall(lambda j: implies(old(lines._index) + 1 <= j and j <= lines._index, lines.lines[j].strip() != ''), 0, len(lines.lines))"],
                     decreases='len(string) - offset'),
         },
-        prop=P + ['C07'],
+        prop=P + ['C07', 'C04'],
         note="assumed lemma (A4): the joined buffer contains exactly one '\\n' per buffered line (LINES_OK)"),
         classmethod_=True)
 
